@@ -100,15 +100,15 @@ def impl_obs(text, v, lvl, ec, reference=None):
 # ------------------------------------------------------------------------------------------
 # generators
 
-# Leaf pools.  For DT/TM/DTM/NM/SI only values that the factory either rejects (kept as ST) or
-# accepts in its own output form are used, which is the domain coq/Model/Leaf.v claims; the
-# acceptance/re-formatting of those datatypes is C13's model.
+# Leaf pools (messy stream).  The segment model uses Model/LeafFull.v, i.e. the datatype factories of
+# Model/Datatypes.v (C13) for DT/TM/DTM/NM/SI, so accepted-and-reformatted as well as rejected
+# values are in the pool.
 LEAF = {
-    'DT': ['20200101', '2020', '202012', 'x9', '2020010'],
-    'DTM': ['20200101', '202001011230', '20200101123059', '2020', 'q'],
-    'TM': ['1200', '120000', '12', 'noon'],
-    'NM': ['1', '15', '-3', 'abc', '1.5'],
-    'SI': ['1', '12', 'x'],
+    'DT': ['20200101', '2020', '202012', 'x9', '2020010', '202011 1', '20200230'],
+    'DTM': ['20200101', '202001011230', '20200101123059', '2020', 'q', '20200101123059.1234+0100', '2020+1500'],
+    'TM': ['1200', '120000', '12', 'noon', '2500', '120000.12', '12+0100+0100', '1200-0500'],
+    'NM': ['1', '15', '-3', 'abc', '1.5', '01', '+2', '1.50', '1e2', '0.0000001', ' 7'],
+    'SI': ['1', '12', 'x', '+1', '007'],
     'ST': ['abc', 'a\\F\\b', 'a\\b', 'A B', 'x\\H\\y', 'X' * 210, 'q#r'],
     'ID': ['A', 'Y', 'a\\'], 'IS': ['A', 'B' * 25], 'TN': ['555-1234', 'zz'], 'TX': ['text', 't\\E\\x'],
     'FT': ['ft', 'f\\.br\\t'], 'WD': ['w'], 'GTS': ['g'], 'SNM': ['s1'], 'CM': ['cm'],
@@ -240,7 +240,7 @@ def nonstandard_escape(text, ec, letters='HNFSTREL'):
 
 
 PRELUDE = '''From Coq Require Import List NArith ZArith Init.Byte.
-From HL7 Require Import Lib.Str Model.Ec Model.Result Model.Ref Model.Tree Model.Parser Model.Encode Model.Leaf Model.Dump Gen.Params.
+From HL7 Require Import Lib.Str Model.Ec Model.Result Model.Ref Model.Tree Model.Parser Model.Encode Model.Leaf Model.LeafFull Model.Dump Gen.Params.
 From HL7 Require Gen.%(mod)s.
 Import ListNotations. Open Scope bs_scope.
 Definition t := Gen.%(mod)s.tables.
@@ -249,9 +249,9 @@ Definition lvl_of (n : nat) : level := match n with 1%%nat => STRICT | _ => TOLE
 (* one case: level, delimiters, precomputed Segment object (or None), text, expected code / encoding / dump *)
 Definition obs (l : nat) (e : ec) (s0 : option (result seg)) (rf : option sref) (text : str) : nat * str * str :=
   let r := match s0 with
-           | Some (Ok s) => parse_segment_in t (lvl_of l) e (leaf_enc v (lvl_of l) e) s text
+           | Some (Ok s) => parse_segment_in t (lvl_of l) e (leaf_enc_full v (lvl_of l) e) s text
            | Some (Err x) => Err x
-           | None => parse_segment t (lvl_of l) e (leaf_enc v (lvl_of l) e) text rf
+           | None => parse_segment t (lvl_of l) e (leaf_enc_full v (lvl_of l) e) text rf
            end in
   match r with
   | Err x => (exn_code x, [], [])
